@@ -47,6 +47,19 @@ def spelled(ctx, pw, cred, which):
                % (which, f.failed_at, f.error))
 
 
+def default_ksf(ctx, k_reg, k_login):
+    """suites whose default stretching function is NOT the identity: leaving the instance absent and passing the default
+    instance explicitly are the same function - registration under one spelling, login under the other, keys agree"""
+    ctx.nontrivial = True
+    f = honest_flow(ctx, b"pw", b"alice", b"ctx", None, None, k_reg, stop_on_error=False, count=True, login_ksf=k_login)
+    ctx.expect(f.ok and f.session_client == f.session_server and f.export_login == f.export_reg,
+               "registered with ksf %s, logged in with ksf %s (suite default is not the identity): keys agree (%s at %s)"
+               % (k_reg, k_login, f.error, f.failed_at))
+    t = flow_tape(ctx)
+    r = ctx.call("flow", 31, "bincode", t, b"pw", b"u", None, None, None, k_reg, model_args=[t, b"pw", b"u", None, None, None, k_reg])
+    ctx.expect(r.ok, "in-memory flow with persisted states under the default instance (%s)" % r.err)
+
+
 def inmem(ctx, pw, cred, context, idu, ids, ksf, rejections):
     ctx.nontrivial = True
     t = flow_tape(ctx, rejections)
@@ -114,4 +127,7 @@ def cases(tier, seed):
         for w in ("login-explicit", "server-explicit", "registration-explicit"):
             out.append(dict(script=spelled, suite=s, seed=seed * 100000 + si * 1000 + 900, mode="pattern",
                             params=dict(pw=b"pw", cred=b"u", which=w)))
+    for zi, zs in enumerate(Z_SUITES):
+        for j, (a, b) in enumerate((("~", "D"), ("D", "~"), ("~", "~"))):
+            out.append(dict(script=default_ksf, suite=zs, seed=seed * 100000 + 95000 + zi * 10 + j, mode="pattern", params=dict(k_reg=a, k_login=b)))
     return out
